@@ -522,5 +522,30 @@ def ground_and_bounded(ctx):
                 if not ok and len(fails) < 2:
                     fails.append({"input": {"atoms": n, "format": fmt, "loaded_with_keep_sdf_text": keep, "history": "save, load, translate / translated, save, load"}, "observed": obs,
                                   "clause": "saving a loaded-then-moved molecule writes its current coordinates", "key": "reloaded_modified"})
-    ctx.add_bounded("molecule.Molecule.save_load/bounded/loaded_then_modified", "1, 3, 7 atoms; sdf (with and without keep_sdf_text) and xyz; translate in place and translated copy before saving again",
+    # a record that carries data items after "M  END" (as database files do: > <GENERIC_NAME> ...): it loads, and the loaded molecule saves to a record that loads again
+    for n in (1, 4):
+        for items in ("> <GENERIC_NAME>\nethanol\n\n", "> <name>\nmy molecule\n\n> <MW>\n46.07\n\n", "> <MW>\n46.07\n\n> <NOTE>\nline one\nline two\n\n"):
+            ev += 1
+            try:
+                m0 = Molecule([Element[syms_all[int(j)]] for j in rng.integers(0, 30, size=n)], rng.uniform(-5, 5, (n, 3)))
+                d = tempfile.mkdtemp(prefix="c16i_")
+                p1 = os.path.join(d, "a.sdf")
+                open(p1, "w").write(m0.to_sdf_string().replace("$$$$", items + "$$$$"))
+                m1 = Molecule.load(p1)
+                m1 = m1[0] if isinstance(m1, list) else m1
+                m1.save(p1)
+                text = open(p1).read()
+                b1 = Molecule.load(p1)
+                b1 = b1[0] if isinstance(b1, list) else b1
+                os.unlink(p1)
+                os.rmdir(d)
+                ok = ([e.atomic_number for e in b1.elements] == [e.atomic_number for e in m0.elements] and np.allclose(b1.positions, m0.positions, atol=1.0002e-4)
+                      and text.splitlines()[3].rstrip().endswith("V2000") and "\n" not in str(m1.name))
+                obs = {"fourth_line_of_the_saved_record": text.splitlines()[3][:60] if len(text.splitlines()) > 3 else None, "name_of_loaded_molecule": repr(m1.name)[:60]}
+            except Exception as e:  # noqa
+                ok, obs = False, {"exception": repr(e)[:200]}
+            if not ok and len(fails) < 2:
+                fails.append({"input": {"atoms": n, "data_items_after_M_END": items, "history": "write record with data items, load, save, load"}, "observed": obs,
+                              "clause": "a molecule loaded from an SDF record with data items saves to a V2000 record (counts line on line 4) that loads back to the same molecule", "key": "sdf_data_items"})
+    ctx.add_bounded("molecule.Molecule.save_load/bounded/loaded_then_modified", "1, 3, 7 atoms; sdf (with and without keep_sdf_text) and xyz; translate in place and translated copy before saving again; SDF records with data items (name tags, multi-line values) loaded and saved again",
                     ev, ev, fails, rule="(size, format, keep) combinations")
